@@ -36,6 +36,7 @@
 #include <validation.h>
 #include <validationinterface.h>
 #include <deque>
+#include <malloc.h>
 #include <map>
 #include <optional>
 #include <set>
@@ -92,6 +93,11 @@ public:
 
     static TestOpts MakeOpts(const NetOptions& o)
     {
+        // The code under test allocates and frees megabyte-sized rolling bloom filters all the time (per peer, per TxDownloadManager);
+        // keep freed memory in the process instead of returning it to the kernel and faulting it in again.
+        mallopt(M_MMAP_THRESHOLD, 256 << 20);
+        mallopt(M_TRIM_THRESHOLD, 1 << 30);
+        mallopt(M_TOP_PAD, 64 << 20);
         TestOpts t;
         t.setup_net = true;
         t.min_validation_cache = true;      // no 32 MiB signature / script caches to allocate and clear per node
